@@ -71,7 +71,8 @@ def build(rng):
         els.append(s)
         blocks.append((gen.parse_fragment(smi).to_text(), m))
     if start == "prefix":
-        head, tail = rng.choice(["F", "Cl", "BrC", "OC", "NCC"]), rng.choice(["Cl", "F", "CBr", "CO", "CCN"])
+        # heads include symmetric multi-atom fragments (CC, NCCN): both atom mappings of the start fragment must be tried
+        head, tail = rng.choice(["F", "Cl", "BrC", "OC", "NCC", "CC", "NCCN", "CCC"]), rng.choice(["Cl", "F", "CBr", "CO", "CCN", "CC"])
         els = [gen.plain_token(head)] + els + [gen.plain_token(tail)]
         return MolAst(els), blocks, head, tail, start
     return MolAst(els), blocks, None, None, start
